@@ -173,6 +173,79 @@ Proof.
   vm_compute. discriminate.
 Qed.
 
+(* ---- the repaired factory: both end points are set to zmin and zmax after the mapping ---- *)
+Theorem snapped_edges_len D Dinv a b n : length (snapped_edges D Dinv a b n) = S n.
+Proof. unfold snapped_edges. rewrite map_length, seq_length. reflexivity. Qed.
+
+Theorem snapped_edges_first D Dinv a b n : (1 <= n)%nat -> hd 0 (snapped_edges D Dinv a b n) = a.
+Proof.
+  intros Hn. unfold snapped_edges. cbn [seq map hd]. unfold snapped_point.
+  destruct (Nat.eqb_spec 0 n) as [E|_]; [lia|]. reflexivity.
+Qed.
+
+Theorem snapped_edges_last D Dinv a b n : last (snapped_edges D Dinv a b n) 0 = b.
+Proof.
+  unfold snapped_edges. rewrite last_map_seq. unfold snapped_point. simpl (0 + n)%nat.
+  rewrite Nat.eqb_refl. reflexivity.
+Qed.
+
+(* span: exact and unconditional *)
+Theorem snapped_edges_span D Dinv a b n :
+  (1 <= n)%nat -> hd 0 (snapped_edges D Dinv a b n) = a /\ last (snapped_edges D Dinv a b n) 0 = b.
+Proof. intros Hn. split; [apply snapped_edges_first; exact Hn | apply snapped_edges_last]. Qed.
+
+(* the mapped interior points lie strictly between the end points *)
+Definition interior_inside (D Dinv : Q -> Q) (a b : Q) (n : nat) : Prop :=
+  forall i, (0 < i < n)%nat ->
+    a < Dinv (lin_point (D a) (D b) n i) /\ Dinv (lin_point (D a) (D b) n i) < b.
+
+Theorem snapped_edges_strict D Dinv a b n :
+  strictly_increasing D -> strictly_increasing Dinv -> a < b -> (1 <= n)%nat ->
+  interior_inside D Dinv a b n -> strict_incb (snapped_edges D Dinv a b n) = true.
+Proof.
+  intros HD HI Hab Hn Hin. unfold snapped_edges. apply strict_incb_map_seq.
+  intros i _ Hi. unfold snapped_point.
+  destruct (Nat.eqb_spec i n) as [E|_]; [lia|].
+  destruct (Nat.eqb_spec (S i) n) as [E|NE].
+  - destruct (Nat.eqb_spec i 0) as [->|N0]; [exact Hab|]. apply Hin. lia.
+  - destruct (Nat.eqb_spec (S i) 0) as [E0|_]; [lia|].
+    destruct (Nat.eqb_spec i 0) as [->|N0].
+    + apply Hin. lia.
+    + apply HI. apply lin_point_lt; [apply HD; exact Hab|lia].
+Qed.
+
+Lemma lin_point_mono a b n i j : a < b -> (i < j)%nat -> (j <= n)%nat -> lin_point a b n i < lin_point a b n j.
+Proof.
+  intros Hab Hij Hj. induction j as [|j IH]; [lia|].
+  destruct (Nat.eq_dec i j) as [->|Hne].
+  - apply lin_point_lt; [exact Hab|lia].
+  - apply Qlt_trans with (lin_point a b n j); [apply IH; lia|apply lin_point_lt; [exact Hab|lia]].
+Qed.
+
+(* the end point hypothesis (F19) is one way to have the interior inside *)
+Lemma endpoint_hypothesis_interior D Dinv a b n :
+  strictly_increasing D -> strictly_increasing Dinv -> a < b ->
+  edges_span_endpoint_hypothesis D Dinv a b -> interior_inside D Dinv a b n.
+Proof.
+  intros HD HI Hab [Ha Hb] i Hi.
+  assert (H0 : lin_point (D a) (D b) n 0 = D a) by reflexivity.
+  assert (Hn : lin_point (D a) (D b) n n = D b).
+  { unfold lin_point. destruct (Nat.eqb_spec n 0) as [E|_]; [lia|]. rewrite Nat.eqb_refl. reflexivity. }
+  split.
+  - apply Qle_lt_trans with (Dinv (D a)); [rewrite Ha; apply Qle_refl|].
+    rewrite <- H0. apply HI. apply lin_point_mono; [apply HD; exact Hab|lia|lia].
+  - apply Qlt_le_trans with (Dinv (D b)); [|rewrite Hb; apply Qle_refl].
+    rewrite <- Hn at 2. apply HI. apply lin_point_mono; [apply HD; exact Hab|lia|lia].
+Qed.
+
+Theorem snapped_edges_valid D Dinv a b n :
+  strictly_increasing D -> strictly_increasing Dinv -> a < b -> (1 <= n)%nat ->
+  interior_inside D Dinv a b n -> valid_edges (snapped_edges D Dinv a b n) = true.
+Proof.
+  intros HD HI Hab Hn Hin. unfold valid_edges.
+  rewrite snapped_edges_len, snapped_edges_strict by assumption. destruct n; [lia|reflexivity].
+Qed.
+
 (* zmin >= zmax can never give valid edges *)
 Lemma linear_edges_invalid a b n : b <= a -> valid_edges (linear_edges a b n) = false.
 Proof.
@@ -180,6 +253,15 @@ Proof.
   pose proof (valid_edges_hd_lt_last _ E) as H.
   destruct n as [|n]; [vm_compute in E; discriminate|].
   rewrite linear_edges_first, linear_edges_last in H by lia. lra.
+Qed.
+
+Lemma snapped_edges_invalid D Dinv a b n : b <= a -> valid_edges (snapped_edges D Dinv a b n) = false.
+Proof.
+  intros Hba. destruct (valid_edges (snapped_edges D Dinv a b n)) eqn:E; [|reflexivity]. exfalso.
+  pose proof (valid_edges_hd_lt_last _ E) as H.
+  destruct n as [|n].
+  - unfold valid_edges in E. rewrite snapped_edges_len in E. simpl in E. discriminate.
+  - rewrite snapped_edges_first, snapped_edges_last in H by lia. lra.
 Qed.
 
 Lemma mapped_edges_invalid D Dinv a b n :
@@ -195,6 +277,9 @@ Qed.
 
 Lemma edges_invalid_n0 l : length l = 1%nat -> valid_edges l = false.
 Proof. intros H. unfold valid_edges. rewrite H. reflexivity. Qed.
+
+Lemma mapped_len fx D Dinv a b n : length (mapped fx D Dinv a b n) = S n.
+Proof. destruct fx; [apply snapped_edges_len|apply mapped_edges_len]. Qed.
 
 (* ------------------------------------------------------------------ angles *)
 Theorem angle_def u pi180 DA DC r :
@@ -229,10 +314,10 @@ Notation roundtrip := (roundtrip Dc Dci Lg Ex).
 Notation from_dict := (from_dict Dc Dci Lg Ex).
 
 (* all three grids have num_bins + 1 edges *)
-Theorem gen_edges_len cos m a b n e : gen_edges cos m a b n = Some e -> length e = S n.
+Theorem gen_edges_len fx cos m a b n e : gen_edges fx cos m a b n = Some e -> length e = S n.
 Proof.
   destruct m; simpl; intros H; inversion H; subst;
-    [apply linear_edges_len | apply mapped_edges_len | apply mapped_edges_len].
+    [apply linear_edges_len | apply mapped_len | apply mapped_len].
 Qed.
 
 (* ---- no stage of the repaired model crashes ---- *)
@@ -243,27 +328,27 @@ Lemma scales_safe rmin rmax u rw res : safe (create_scales rmin rmax u rw res).
 Proof. intros k. unfold create_scales. destruct (default Ukpc u); try discriminate; destruct (scales_valid rmin rmax); discriminate. Qed.
 Lemma mk_binning_safe e m cl : safe (mk_binning e m cl).
 Proof. intros k. unfold mk_binning. destruct (valid_edges e); discriminate. Qed.
-Lemma create_binning_safe cos zmin zmax nb m e cl : safe (create_binning cos zmin zmax nb m e cl).
+Lemma create_binning_safe fx cos zmin zmax nb m e cl : safe (create_binning fx cos zmin zmax nb m e cl).
 Proof.
   intros k. unfold Config.create_binning.
   destruct zmin, zmax, e, (default ClRight cl); try discriminate;
     try apply mk_binning_safe;
-    destruct (gen_edges _ _ _ _ _); try discriminate; apply mk_binning_safe.
+    destruct (gen_edges _ _ _ _ _ _); try discriminate; apply mk_binning_safe.
 Qed.
 
 (* ---- what create returns ---- *)
 Lemma mk_binning_ok e m cl b : mk_binning e m cl = Ok b -> b = mkBinning e m cl /\ valid_edges e = true.
 Proof. unfold mk_binning. destruct (valid_edges e); intros H; inversion H; auto. Qed.
 
-Lemma create_binning_gen cos a b nb m e cl bn :
-  create_binning cos (Some a) (Some b) nb m e cl = Ok bn ->
-  exists ed, gen_edges cos (default MLinear m) a b (default 30%nat nb) = Some ed /\
+Lemma create_binning_gen fx cos a b nb m e cl bn :
+  create_binning fx cos (Some a) (Some b) nb m e cl = Ok bn ->
+  exists ed, gen_edges fx cos (default MLinear m) a b (default 30%nat nb) = Some ed /\
              bn = mkBinning ed (default MLinear m) (default ClRight cl) /\ valid_edges ed = true /\
              default ClRight cl <> ClUnknown.
 Proof.
   unfold Config.create_binning. intros H.
   destruct (default ClRight cl) eqn:Ecl; try discriminate;
-    destruct (gen_edges cos (default MLinear m) a b (default 30%nat nb)) as [ed|] eqn:Eg; try discriminate;
+    destruct (gen_edges fx cos (default MLinear m) a b (default 30%nat nb)) as [ed|] eqn:Eg; try discriminate;
     apply mk_binning_ok in H; destruct H as [-> Hv]; exists ed; repeat split; auto; discriminate.
 Qed.
 
@@ -272,13 +357,13 @@ Lemma create_inv fx p c :
   exists cos s b,
     parse_cosmology fx (p_cosmo p) = Ok cos /\
     create_scales (p_rmin p) (p_rmax p) (p_unit p) (p_rweight p) (p_resolution p) = Ok s /\
-    create_binning cos (p_zmin p) (p_zmax p) (p_num_bins p) (p_method p) (p_edges p) (p_closed p) = Ok b /\
+    create_binning fx cos (p_zmin p) (p_zmax p) (p_num_bins p) (p_method p) (p_edges p) (p_closed p) = Ok b /\
     c = mkConfig s b cos (norm_workers (p_workers p)).
 Proof.
   unfold Config.create, bind. intros H.
   destruct (parse_cosmology fx (p_cosmo p)) as [cos| |]; try discriminate.
   destruct (create_scales _ _ _ _ _) as [s| |]; try discriminate.
-  destruct (create_binning _ _ _ _ _ _ _) as [b| |] eqn:Eb; try discriminate.
+  destruct (create_binning _ _ _ _ _ _ _ _) as [b| |] eqn:Eb; try discriminate.
   inversion H. exists cos, s, b. auto.
 Qed.
 
@@ -291,7 +376,7 @@ Proof.
   unfold Config.create_binning in Hb.
   destruct (p_zmin p), (p_zmax p), (p_edges p), (default ClRight (p_closed p)); try discriminate;
     try (apply mk_binning_ok in Hb; destruct Hb as [-> Hv]; exact Hv);
-    destruct (gen_edges _ _ _ _ _); try discriminate;
+    destruct (gen_edges _ _ _ _ _ _); try discriminate;
     apply mk_binning_ok in Hb; destruct Hb as [-> Hv]; exact Hv.
 Qed.
 
@@ -305,43 +390,59 @@ Proof.
   eapply gen_edges_len; exact Hg.
 Qed.
 
-(* edges_span, linear: exactly [zmin, zmax] *)
+Lemma valid_len_n ed n : valid_edges ed = true -> length ed = S n -> (1 <= n)%nat.
+Proof. unfold valid_edges. intros H L. rewrite L in H. destruct n; [discriminate|lia]. Qed.
+
+(* edges_span for the repaired model: exactly [zmin, zmax], every method, no premise on the oracles *)
+Theorem edges_span p c a b :
+  create true p = Ok c -> p_zmin p = Some a -> p_zmax p = Some b ->
+  hd 0 (b_edges (c_binning c)) = a /\ last (b_edges (c_binning c)) 0 = b.
+Proof.
+  intros H Ha Hb. apply create_inv in H. destruct H as (cos & s & bn & _ & _ & H & ->). simpl.
+  rewrite Ha, Hb in H. apply create_binning_gen in H. destruct H as (ed & Hg & -> & Hv & _). simpl.
+  pose proof (valid_len_n _ _ Hv (gen_edges_len _ _ _ _ _ _ _ Hg)) as Hn.
+  destruct (default MLinear (p_method p)); simpl in Hg; inversion Hg; subst ed.
+  - split; [reflexivity|apply linear_edges_last; exact Hn].
+  - apply snapped_edges_span; exact Hn.
+  - apply snapped_edges_span; exact Hn.
+Qed.
+
+(* edges_span, linear, also for the code as it is *)
 Theorem edges_span_linear fx p c a b :
   create fx p = Ok c -> p_zmin p = Some a -> p_zmax p = Some b -> default MLinear (p_method p) = MLinear ->
   hd 0 (b_edges (c_binning c)) = a /\ last (b_edges (c_binning c)) 0 = b.
 Proof.
   intros H Ha Hb Hm. apply create_inv in H. destruct H as (cos & s & bn & _ & _ & H & ->). simpl.
   rewrite Ha, Hb in H. apply create_binning_gen in H. destruct H as (ed & Hg & -> & Hv & _). simpl.
+  pose proof (valid_len_n _ _ Hv (gen_edges_len _ _ _ _ _ _ _ Hg)) as Hn.
   rewrite Hm in Hg. simpl in Hg. inversion Hg; subst ed. split; [reflexivity|].
-  apply linear_edges_last. unfold valid_edges in Hv. rewrite linear_edges_len in Hv.
-  destruct (default 30%nat (p_num_bins p)); [discriminate|lia].
+  apply linear_edges_last. exact Hn.
 Qed.
 
-(* edges_span, comoving and logspace: under the end point hypothesis on the oracle *)
-Theorem edges_span_comoving fx p c a b :
-  create fx p = Ok c -> p_zmin p = Some a -> p_zmax p = Some b -> p_method p = Some MComoving ->
+(* edges_span, comoving and logspace, for the code of the pinned commit (no end point
+   assignment): only under the end point hypothesis on the oracle *)
+Theorem edges_span_current_comoving p c a b :
+  create false p = Ok c -> p_zmin p = Some a -> p_zmax p = Some b -> p_method p = Some MComoving ->
   edges_span_endpoint_hypothesis (Dc (c_cosmo c)) (Dci (c_cosmo c)) a b ->
   hd 0 (b_edges (c_binning c)) == a /\ last (b_edges (c_binning c)) 0 == b.
 Proof.
   intros H Ha Hb Hm Hyp. apply create_inv in H. destruct H as (cos & s & bn & _ & _ & H & ->).
   simpl in *. rewrite Ha, Hb, Hm in H. apply create_binning_gen in H.
-  destruct H as (ed & Hg & -> & Hv & _). simpl in *. inversion Hg; subst ed.
-  apply mapped_edges_span; [exact Hyp|].
-  unfold valid_edges in Hv. unfold comoving_edges in Hv. rewrite mapped_edges_len in Hv.
-  destruct (default 30%nat (p_num_bins p)); [discriminate|lia].
+  destruct H as (ed & Hg & -> & Hv & _).
+  pose proof (valid_len_n _ _ Hv (gen_edges_len _ _ _ _ _ _ _ Hg)) as Hn.
+  simpl in *. inversion Hg; subst ed. apply mapped_edges_span; assumption.
 Qed.
 
-Theorem edges_span_logspace fx p c a b :
-  create fx p = Ok c -> p_zmin p = Some a -> p_zmax p = Some b -> p_method p = Some MLogspace ->
+Theorem edges_span_current_logspace p c a b :
+  create false p = Ok c -> p_zmin p = Some a -> p_zmax p = Some b -> p_method p = Some MLogspace ->
   edges_span_endpoint_hypothesis Lg Ex a b ->
   hd 0 (b_edges (c_binning c)) == a /\ last (b_edges (c_binning c)) 0 == b.
 Proof.
   intros H Ha Hb Hm Hyp. apply create_inv in H. destruct H as (cos & s & bn & _ & _ & H & ->).
   simpl in *. rewrite Ha, Hb, Hm in H. apply create_binning_gen in H.
-  destruct H as (ed & Hg & -> & Hv & _). simpl in *. inversion Hg; subst ed.
-  apply mapped_edges_span; [exact Hyp|].
-  unfold valid_edges in Hv. unfold logspace_edges in Hv. rewrite mapped_edges_len in Hv.
-  destruct (default 30%nat (p_num_bins p)); [discriminate|lia].
+  destruct H as (ed & Hg & -> & Hv & _).
+  pose proof (valid_len_n _ _ Hv (gen_edges_len _ _ _ _ _ _ _ Hg)) as Hn.
+  simpl in *. inversion Hg; subst ed. apply mapped_edges_span; assumption.
 Qed.
 
 (* the factories do not refuse what they should accept: zmin < zmax, num_bins >= 1 *)
@@ -349,38 +450,37 @@ Theorem create_binning_accepts cos a b n m cl :
   a < b -> (1 <= n)%nat -> cl <> ClUnknown ->
   match m with
   | MLinear => True
-  | MComoving => strictly_increasing (Dc cos) /\ strictly_increasing (Dci cos)
-  | MLogspace => strictly_increasing Lg /\ strictly_increasing Ex
+  | MComoving => strictly_increasing (Dc cos) /\ strictly_increasing (Dci cos) /\ interior_inside (Dc cos) (Dci cos) a b n
+  | MLogspace => strictly_increasing Lg /\ strictly_increasing Ex /\ interior_inside Lg Ex a b n
   | _ => False
   end ->
-  exists ed, gen_edges cos m a b n = Some ed /\
-             create_binning cos (Some a) (Some b) (Some n) (Some m) None (Some cl) = Ok (mkBinning ed m cl).
+  exists ed, gen_edges true cos m a b n = Some ed /\
+             create_binning true cos (Some a) (Some b) (Some n) (Some m) None (Some cl) = Ok (mkBinning ed m cl).
 Proof.
   intros Hab Hn Hcl Hm. unfold Config.create_binning, mk_binning. simpl default.
   destruct m; try contradiction; simpl Config.gen_edges.
   - exists (linear_edges a b n). rewrite linear_edges_valid by assumption. destruct cl; try congruence; auto.
-  - destruct Hm as [H1 H2]. exists (comoving_edges Dc Dci cos a b n). unfold comoving_edges.
-    rewrite mapped_edges_valid by assumption. destruct cl; try congruence; auto.
-  - destruct Hm as [H1 H2]. exists (logspace_edges Lg Ex a b n). unfold logspace_edges.
-    rewrite mapped_edges_valid by assumption. destruct cl; try congruence; auto.
+  - destruct Hm as (H1 & H2 & H3). exists (comoving_edges Dc Dci true cos a b n). unfold comoving_edges, mapped.
+    rewrite snapped_edges_valid by assumption. destruct cl; try congruence; auto.
+  - destruct Hm as (H1 & H2 & H3). exists (logspace_edges Lg Ex true a b n). unfold logspace_edges, mapped.
+    rewrite snapped_edges_valid by assumption. destruct cl; try congruence; auto.
 Qed.
 
 (* ------------------------------------------------------------------ invalid_rejected *)
 Lemma mk_binning_invalid e m cl : valid_edges e = false -> mk_binning e m cl = Rejected.
 Proof. unfold mk_binning. intros ->. reflexivity. Qed.
 
-Theorem invalid_rejected p :
-  (forall cos, monotone (Dc cos)) -> (forall cos, monotone (Dci cos)) -> monotone Lg -> monotone Ex ->
-  params_invalid p = true -> create true p = Rejected.
+(* no premise on the oracles: with the end points assigned, zmin >= zmax is seen on the edges *)
+Theorem invalid_rejected p : params_invalid p = true -> create true p = Rejected.
 Proof.
-  intros HDc HDci HLg HEx H. unfold Config.create.
+  intros H. unfold Config.create.
   destruct (parse_cosmology true (p_cosmo p)) as [cos| |k] eqn:EP;
     [|reflexivity|exfalso; exact (parse_safe _ k EP)].
   cbn [bind].
   destruct (create_scales (p_rmin p) (p_rmax p) (p_unit p) (p_rweight p) (p_resolution p)) as [s| |k] eqn:ES;
     [|reflexivity|exfalso; exact (scales_safe _ _ _ _ _ k ES)].
   cbn [bind].
-  assert (HB : create_binning cos (p_zmin p) (p_zmax p) (p_num_bins p) (p_method p) (p_edges p) (p_closed p) = Rejected);
+  assert (HB : create_binning true cos (p_zmin p) (p_zmax p) (p_num_bins p) (p_method p) (p_edges p) (p_closed p) = Rejected);
     [|rewrite HB; reflexivity].
   unfold params_invalid in H. repeat rewrite orb_true_iff in H.
   destruct H as [[[[H|H]|H]|H]|H].
@@ -393,7 +493,56 @@ Proof.
   - unfold Config.create_binning.
     destruct (p_zmin p) as [a|], (p_zmax p) as [b|].
     + repeat rewrite orb_true_iff in H.
-      assert (HG : match gen_edges cos (default MLinear (p_method p)) a b (default 30%nat (p_num_bins p)) with
+      assert (HG : match gen_edges true cos (default MLinear (p_method p)) a b (default 30%nat (p_num_bins p)) with
+                   | None => True | Some e => valid_edges e = false end).
+      { destruct H as [[H|H]|H].
+        - apply Qleb_le in H.
+          destruct (default MLinear (p_method p)); simpl; auto.
+          + apply linear_edges_invalid; exact H.
+          + apply snapped_edges_invalid; exact H.
+          + apply snapped_edges_invalid; exact H.
+        - apply Nat.eqb_eq in H. rewrite H.
+          destruct (default MLinear (p_method p)); simpl; auto; try apply edges_invalid_n0;
+            first [apply linear_edges_len | apply snapped_edges_len].
+        - destruct (default MLinear (p_method p)); simpl; auto; discriminate. }
+      destruct (gen_edges true cos (default MLinear (p_method p)) a b (default 30%nat (p_num_bins p))) as [e|];
+        [rewrite (mk_binning_invalid _ _ _ HG)|]; destruct (default ClRight (p_closed p)); reflexivity.
+    + destruct (p_edges p) as [e|]; [|reflexivity]. rewrite negb_true_iff in H.
+      rewrite (mk_binning_invalid _ _ _ H). destruct (default ClRight (p_closed p)); reflexivity.
+    + destruct (p_edges p) as [e|]; [|reflexivity]. rewrite negb_true_iff in H.
+      rewrite (mk_binning_invalid _ _ _ H). destruct (default ClRight (p_closed p)); reflexivity.
+    + destruct (p_edges p) as [e|]; [|reflexivity]. rewrite negb_true_iff in H.
+      rewrite (mk_binning_invalid _ _ _ H). destruct (default ClRight (p_closed p)); reflexivity.
+Qed.
+
+(* the same for the code of the pinned commit needs monotone oracles (zmin >= zmax is only seen
+   through the mapped end points) *)
+Theorem invalid_rejected_current p :
+  (forall cos, monotone (Dc cos)) -> (forall cos, monotone (Dci cos)) -> monotone Lg -> monotone Ex ->
+  (forall id, p_cosmo p <> CosCustom id) ->
+  params_invalid p = true -> create false p = Rejected.
+Proof.
+  intros HDc HDci HLg HEx Hnc H. unfold Config.create.
+  destruct (parse_cosmology false (p_cosmo p)) as [cos| |k] eqn:EP;
+    [|reflexivity|destruct (p_cosmo p); simpl in EP; try discriminate; exfalso; eapply Hnc; reflexivity].
+  cbn [bind].
+  destruct (create_scales (p_rmin p) (p_rmax p) (p_unit p) (p_rweight p) (p_resolution p)) as [s| |k] eqn:ES;
+    [|reflexivity|exfalso; exact (scales_safe _ _ _ _ _ k ES)].
+  cbn [bind].
+  assert (HB : create_binning false cos (p_zmin p) (p_zmax p) (p_num_bins p) (p_method p) (p_edges p) (p_closed p) = Rejected);
+    [|rewrite HB; reflexivity].
+  unfold params_invalid in H. repeat rewrite orb_true_iff in H.
+  destruct H as [[[[H|H]|H]|H]|H].
+  - destruct (p_cosmo p); simpl in *; discriminate.
+  - unfold create_scales in ES. destruct (default Ukpc (p_unit p)); simpl in H; discriminate.
+  - unfold create_scales in ES. rewrite negb_true_iff in H. rewrite H in ES.
+    destruct (default Ukpc (p_unit p)); discriminate.
+  - unfold Config.create_binning. destruct (default ClRight (p_closed p)); simpl in H; try discriminate.
+    destruct (p_zmin p), (p_zmax p), (p_edges p); reflexivity.
+  - unfold Config.create_binning.
+    destruct (p_zmin p) as [a|], (p_zmax p) as [b|].
+    + repeat rewrite orb_true_iff in H.
+      assert (HG : match gen_edges false cos (default MLinear (p_method p)) a b (default 30%nat (p_num_bins p)) with
                    | None => True | Some e => valid_edges e = false end).
       { destruct H as [[H|H]|H].
         - apply Qleb_le in H.
@@ -405,7 +554,7 @@ Proof.
           destruct (default MLinear (p_method p)); simpl; auto; try apply edges_invalid_n0;
             first [apply linear_edges_len | apply mapped_edges_len].
         - destruct (default MLinear (p_method p)); simpl; auto; discriminate. }
-      destruct (gen_edges cos (default MLinear (p_method p)) a b (default 30%nat (p_num_bins p))) as [e|];
+      destruct (gen_edges false cos (default MLinear (p_method p)) a b (default 30%nat (p_num_bins p))) as [e|];
         [rewrite (mk_binning_invalid _ _ _ HG)|]; destruct (default ClRight (p_closed p)); reflexivity.
     + destruct (p_edges p) as [e|]; [|reflexivity]. rewrite negb_true_iff in H.
       rewrite (mk_binning_invalid _ _ _ H). destruct (default ClRight (p_closed p)); reflexivity.
@@ -422,16 +571,16 @@ Lemma parse_default own mc :
 Proof. destruct mc; reflexivity. Qed.
 
 Lemma create_binning_custom cos nb m e cl :
-  create_binning cos None None nb m (Some e) (Some cl)
+  create_binning true cos None None nb m (Some e) (Some cl)
   = match cl with ClUnknown => Rejected | _ => mk_binning e MCustom cl end.
 Proof. destruct cl; reflexivity. Qed.
 
 Lemma create_binning_cl_unknown cos a b nb m e :
-  create_binning cos (Some a) (Some b) nb m e (Some ClUnknown) = Rejected.
+  create_binning true cos (Some a) (Some b) nb m e (Some ClUnknown) = Rejected.
 Proof. reflexivity. Qed.
 
 Lemma create_binning_m_unknown cos a b nb e cl :
-  create_binning cos (Some a) (Some b) nb (Some MUnknown) e cl = Rejected.
+  create_binning true cos (Some a) (Some b) nb (Some MUnknown) e cl = Rejected.
 Proof. destruct cl as [[]|]; reflexivity. Qed.
 
 Ltac crush_outcomes :=
@@ -440,7 +589,7 @@ Ltac crush_outcomes :=
   | H : ?x = Crashed ?k |- _ =>
       first [ exfalso; exact (parse_safe _ _ H) | exfalso; exact (scales_safe _ _ _ _ _ _ H)
             | exfalso; exact (mk_binning_safe _ _ _ _ H)
-            | exfalso; exact (create_binning_safe _ _ _ _ _ _ _ _ H) ]
+            | exfalso; exact (create_binning_safe _ _ _ _ _ _ _ _ _ H) ]
   end.
 
 Ltac split_binning :=
@@ -493,7 +642,7 @@ Proof.
   destruct (m_edges m) as [e|].
   - (* new edges *)
     proj_params.
-    apply (FIN _ (fun cos => create_binning cos None None None (Some MCustom) (Some e) (Some cl))).
+    apply (FIN _ (fun cos => create_binning true cos None None None (Some MCustom) (Some e) (Some cl))).
     + intros; apply create_binning_safe.
     + intros. rewrite create_binning_custom. reflexivity.
     + intros _ k. destruct cl; try discriminate; apply mk_binning_safe.
@@ -504,7 +653,7 @@ Proof.
          b0 <- match cl with
                | ClUnknown => Rejected
                | _ => cos <- match m_cosmo m with None => Ok own | Some a => parse_cosmology true a end ;;
-                      create_binning cos (Some (default (zmin_of b) (m_zmin m))) (Some (default (zmax_of b) (m_zmax m)))
+                      create_binning true cos (Some (default (zmin_of b) (m_zmin m))) (Some (default (zmax_of b) (m_zmax m)))
                                      (Some (default (nbins_of b) (m_num_bins m))) (Some meth) None (Some cl)
                end ;;
          cos <- match m_cosmo m with None => Ok own | Some a => parse_cosmology true a end ;;
@@ -513,11 +662,11 @@ Proof.
            s0 <- create_scales (default (s_rmin s) (m_rmin m)) (default (s_rmax s) (m_rmax m))
                              (Some (default (s_unit s) (m_unit m))) (default (s_rweight s) (m_rweight m))
                              (default (s_resolution s) (m_resolution m)) ;;
-           b0 <- create_binning cos (Some (default (zmin_of b) (m_zmin m))) (Some (default (zmax_of b) (m_zmax m)))
+           b0 <- create_binning true cos (Some (default (zmin_of b) (m_zmin m))) (Some (default (zmax_of b) (m_zmax m)))
                                      (Some (default (nbins_of b) (m_num_bins m))) (Some meth) None (Some cl) ;;
            Ok (mkConfig s0 b0 cos (norm_workers (default w (m_workers m)))))).
     { intros meth.
-      apply (FIN _ (fun cos => create_binning cos (Some (default (zmin_of b) (m_zmin m)))
+      apply (FIN _ (fun cos => create_binning true cos (Some (default (zmin_of b) (m_zmin m)))
                                      (Some (default (zmax_of b) (m_zmax m)))
                                      (Some (default (nbins_of b) (m_num_bins m))) (Some meth) None (Some cl))).
       - intros; apply create_binning_safe.
@@ -532,7 +681,7 @@ Proof.
       * (* method = custom without edges *)
         clear FIN GEN. destruct (create_scales _ _ _ _ _) eqn:ES; try reflexivity; crush_outcomes.
       * (* unknown method *)
-        apply (FIN Rejected (fun cos => create_binning cos (Some (default (zmin_of b) (m_zmin m)))
+        apply (FIN Rejected (fun cos => create_binning true cos (Some (default (zmin_of b) (m_zmin m)))
                                      (Some (default (zmax_of b) (m_zmax m)))
                                      (Some (default (nbins_of b) (m_num_bins m))) (Some MUnknown) None (Some cl))).
         -- intros; apply create_binning_safe.
@@ -545,7 +694,7 @@ Proof.
       * apply GEN.
       * apply GEN.
       * (* custom edges are carried over *)
-        apply (FIN _ (fun cos => create_binning cos None None None (Some MCustom) (Some (b_edges b)) (Some cl))).
+        apply (FIN _ (fun cos => create_binning true cos None None None (Some MCustom) (Some (b_edges b)) (Some cl))).
         -- intros; apply create_binning_safe.
         -- intros. rewrite create_binning_custom. reflexivity.
         -- intros _ k. destruct cl; try discriminate; apply mk_binning_safe.
@@ -627,6 +776,31 @@ Definition wit_params (m : method) (cos : cosmo_arg) (edges : option (list Q)) :
            (match edges with None => Some 1 | _ => None end) (match edges with None => Some 3 | _ => None end)
            (Some 2%nat) (Some m) edges None cos None.
 
+Definition get {A} (d : A) (o : outcome A) : A := match o with Ok a => a | _ => d end.
+Definition dummy_config : config := mkConfig (mkScales [] [] Ukpc None None) (mkBinning [] MLinear ClRight) 0 None.
+
+Definition w15_p := wit_params MComoving (CosName 1) None.
+Definition w15_m := mkMods (Some [1 # 2]) None None None None None None None None None None None None.
+Definition w15_c := Eval vm_compute in get dummy_config (create_t wit_tables false w15_p).
+Definition w15_c1 := Eval vm_compute in get dummy_config (modify_t wit_tables false w15_c w15_m).
+Definition w15_c2 := Eval vm_compute in get dummy_config (modify_spec_t wit_tables w15_c w15_m).
+
+Definition w15b_p := wit_params MComoving (CosName 0) None.
+Definition w15b_m := mkMods None None None None None None None None None None None (Some (CosName 1)) None.
+Definition w15b_c := Eval vm_compute in get dummy_config (create_t wit_tables false w15b_p).
+Definition w15b_c2 := Eval vm_compute in get dummy_config (modify_spec_t wit_tables w15b_c w15b_m).
+
+Definition w20_p := wit_params MLinear (CosName 0) (Some [1; 2; 4]).
+Definition w20_m := mkMods None None None None None None None None None None (Some ClLeft) None None.
+Definition w20_c := Eval vm_compute in get dummy_config (create_t wit_tables false w20_p).
+Definition w20_c2 := Eval vm_compute in get dummy_config (modify_spec_t wit_tables w20_c w20_m).
+
+Definition w14_p := wit_params MLinear (CosName 0) None.
+Definition w14_c := Eval vm_compute in get dummy_config (create_t wit_tables false w14_p).
+
+Definition wcc_p := wit_params MLinear (CosCustom 100) None.
+Definition wcc_c := Eval vm_compute in get dummy_config (create_t wit_tables true wcc_p).
+
 (* F15: modify with an unrelated change regenerates comoving edges with the default cosmology *)
 Theorem modify_current_drops_cosmology_refuted :
   exists t p m c c1 c2,
@@ -638,10 +812,7 @@ Theorem modify_current_drops_cosmology_refuted :
     b_edges (c_binning c2) = [1; 5 # 2; 3] /\
     b_edges (c_binning c1) = [1; 2; 3].
 Proof.
-  exists wit_tables, (wit_params MComoving (CosName 1) None),
-    (mkMods (Some [1 # 2]) None None None None None None None None None None None None).
-  eexists. eexists. eexists.
-  vm_compute. repeat split.
+  exists wit_tables, w15_p, w15_m, w15_c, w15_c1, w15_c2. vm_compute. repeat split.
 Qed.
 
 (* F15, second form: a cosmology given by name reaches the comoving factory as a string *)
@@ -650,9 +821,7 @@ Theorem modify_current_cosmology_name_refuted :
     create_t t false p = Ok c /\ modify_t t false c m = Crashed AttrErr /\ modify_spec_t t c m = Ok c2 /\
     c_cosmo c2 = 1%nat /\ b_edges (c_binning c2) = [1; 5 # 2; 3].
 Proof.
-  exists wit_tables, (wit_params MComoving (CosName 0) None),
-    (mkMods None None None None None None None None None None None (Some (CosName 1)) None).
-  eexists. eexists. vm_compute. repeat split.
+  exists wit_tables, w15b_p, w15b_m, w15b_c, w15b_c2. vm_compute. repeat split.
 Qed.
 
 (* F20: any modify of a custom-edges configuration that passes no new edges: KeyError *)
@@ -661,16 +830,14 @@ Theorem modify_current_closed_custom_edges_refuted :
     create_t t false p = Ok c /\ modify_t t false c m = Crashed KeyErr /\ modify_spec_t t c m = Ok c2 /\
     b_edges (c_binning c2) = b_edges (c_binning c) /\ b_closed (c_binning c2) = ClLeft.
 Proof.
-  exists wit_tables, (wit_params MLinear (CosName 0) (Some [1; 2; 4])),
-    (mkMods None None None None None None None None None None (Some ClLeft) None None).
-  eexists. eexists. vm_compute. repeat split.
+  exists wit_tables, w20_p, w20_m, w20_c, w20_c2. vm_compute. repeat split.
 Qed.
 
 (* F14: == of a configuration with itself raises *)
 Theorem eq_current_refuted :
   exists t p c, create_t t false p = Ok c /\ config_eq false c c = Crashed AttrErr.
 Proof.
-  exists wit_tables, (wit_params MLinear (CosName 0) None). eexists. vm_compute. repeat split.
+  exists wit_tables, w14_p, w14_c. vm_compute. repeat split.
 Qed.
 
 (* ... exactly when nothing before the missing attribute differs *)
@@ -691,30 +858,50 @@ Qed.
 Theorem roundtrip_current_custom_edges_refuted :
   exists t p c, create_t t false p = Ok c /\ roundtrip_t t false c = Rejected /\ roundtrip_t t true c = Ok c.
 Proof.
-  exists wit_tables, (wit_params MLinear (CosName 0) (Some [1; 2; 4])). eexists. vm_compute. repeat split.
+  exists wit_tables, w20_p, w20_c. vm_compute. repeat split.
 Qed.
 
 (* new: a CustomCosmology instance is refused by parse_cosmology *)
 Theorem create_current_custom_cosmology_refuted :
   exists t p c, params_invalid p = false /\ create_t t false p = Crashed TypeErr /\ create_t t true p = Ok c.
 Proof.
-  exists wit_tables, (wit_params MLinear (CosCustom 100) None). eexists. vm_compute. repeat split.
+  exists wit_tables, wcc_p, wcc_c. vm_compute. repeat split.
 Qed.
 
 (* ------------------------------------------------------------------ to_dict / from_dict *)
 Lemma norm_workers_idem w : norm_workers (norm_workers w) = norm_workers w.
 Proof. destruct w as [[|n]|]; reflexivity. Qed.
 
-(* restoring a configuration with custom edges or linear bins from its dictionary gives the
-   configuration back (repaired model; comoving/logspace need the end points to be mapped back
-   to the same rational, i.e. the F19 hypothesis in its bit-exact form) *)
-Theorem roundtrip_linear_custom Dc Dci Lg Ex p c :
+Lemma create_binning_inv Dc Dci Lg Ex fx cos zmin zmax nb m e cl b :
+  create_binning Dc Dci Lg Ex fx cos zmin zmax nb m e cl = Ok b ->
+  valid_edges (b_edges b) = true /\ b_closed b <> ClUnknown /\
+  ((exists a bb, gen_edges Dc Dci Lg Ex fx cos (b_method b) a bb (default 30%nat nb) = Some (b_edges b))
+   \/ b_method b = MCustom).
+Proof.
+  intros H. destruct zmin as [a|], zmax as [bb|].
+  - apply create_binning_gen in H. destruct H as (ed & Hg & -> & Hv & Hcl). simpl.
+    repeat split; auto. left. exists a, bb. exact Hg.
+  - unfold create_binning in H. destruct e; [|discriminate].
+    destruct (default ClRight cl) eqn:E; try discriminate;
+      apply mk_binning_ok in H; destruct H as [-> Hv]; simpl; repeat split; auto; discriminate.
+  - unfold create_binning in H. destruct e; [|discriminate].
+    destruct (default ClRight cl) eqn:E; try discriminate;
+      apply mk_binning_ok in H; destruct H as [-> Hv]; simpl; repeat split; auto; discriminate.
+  - unfold create_binning in H. destruct e; [|discriminate].
+    destruct (default ClRight cl) eqn:E; try discriminate;
+      apply mk_binning_ok in H; destruct H as [-> Hv]; simpl; repeat split; auto; discriminate.
+Qed.
+
+(* restoring a configuration from its own dictionary gives the configuration back - for custom
+   edges and for all three generating methods (the end point assignment makes the regenerated
+   comoving / logspace edges the same rationals) *)
+Theorem roundtrip_id Dc Dci Lg Ex p c :
   create Dc Dci Lg Ex true p = Ok c -> cosmo_named (c_cosmo c) = true ->
-  (b_method (c_binning c) = MLinear \/ b_method (c_binning c) = MCustom) ->
   roundtrip Dc Dci Lg Ex true c = Ok c.
 Proof.
-  intros H Hn Hm. pose proof (created_edges_strict _ _ _ _ _ _ _ H) as Hv.
+  intros H Hn.
   apply create_inv in H. destruct H as (cos & s & b & HP & HS & HB & ->).
+  apply create_binning_inv in HB. destruct HB as (Hv & Hcl & Hg).
   unfold roundtrip, to_dict. cbn [c_cosmo c_scales c_binning c_workers] in *. rewrite Hn. cbn [bind].
   unfold from_dict.
   cbn [d_cosmo d_rmin d_rmax d_unit d_rweight d_resolution d_method d_zmin d_zmax d_num_bins d_edges d_closed d_workers].
@@ -725,30 +912,24 @@ Proof.
       destruct (scales_valid (p_rmin p) (p_rmax p)) eqn:Ev; try discriminate;
       inversion HS; subst s; cbn; rewrite Ev; reflexivity. }
   rewrite ES. cbn [bind]. rewrite norm_workers_idem.
-  destruct Hm as [Hm|Hm]; rewrite Hm; cbn [method_eqb orb is_some].
-  - (* linear: the edges are regenerated from their own first/last element *)
-    unfold Config.create_binning in HB.
-    destruct (p_zmin p) as [a|], (p_zmax p) as [bb|]; cbn in HB;
-      try (destruct (p_edges p); [destruct (default ClRight (p_closed p)); try discriminate;
-                                  apply mk_binning_ok in HB; destruct HB as [-> _]; discriminate | discriminate]).
-    destruct (default ClRight (p_closed p)) eqn:Ecl; try discriminate;
-      (destruct (default MLinear (p_method p)) eqn:Em; cbn in HB; try discriminate;
-       apply mk_binning_ok in HB; destruct HB as [-> Hv']; cbn in Hm; try discriminate);
-      unfold Config.create_binning, zmin_of, zmax_of, nbins_of; cbn [b_edges b_closed b_method default];
-      (assert (Hn1 : (1 <= default 30%nat (p_num_bins p))%nat)
-         by (unfold valid_edges in Hv'; rewrite linear_edges_len in Hv';
-             destruct (default 30%nat (p_num_bins p)); [discriminate|lia]));
-      rewrite linear_edges_first, linear_edges_last, linear_edges_len by exact Hn1;
-      cbn [Config.gen_edges]; replace (S (default 30%nat (p_num_bins p)) - 1)%nat with (default 30%nat (p_num_bins p)) by lia;
-      unfold mk_binning; rewrite Hv'; reflexivity.
-  - (* custom *)
-    rewrite orb_true_r || idtac.
-    destruct b as [e mth cl]. cbn in *. subst mth. cbn.
-    assert (cl <> ClUnknown).
-    { unfold Config.create_binning in HB.
-      destruct (p_zmin p), (p_zmax p), (p_edges p), (default ClRight (p_closed p)) eqn:E; try discriminate;
-        try (apply mk_binning_ok in HB; destruct HB as [HB _]; inversion HB; subst; discriminate);
-        try (destruct (Config.gen_edges _ _ _ _ _ _ _ _ _); try discriminate;
-             apply mk_binning_ok in HB; destruct HB as [HB _]; inversion HB; subst; discriminate). }
+  destruct b as [e mth cl]. cbn [b_edges b_method b_closed] in *.
+  destruct Hg as [(a & bb & Hg)|Hg].
+  - (* generated: the edges are regenerated from their own first and last element *)
+    set (n := default 30%nat (p_num_bins p)) in *.
+    pose proof (valid_len_n _ _ Hv (gen_edges_len _ _ _ _ _ _ _ _ _ _ _ Hg)) as Hn1.
+    assert (Hfl : hd 0 e = a /\ last e 0 = bb /\ length e = S n /\ mth <> MCustom).
+    { destruct mth; cbn [gen_edges comoving_edges logspace_edges mapped] in Hg; try discriminate;
+        injection Hg as He; subst e.
+      - repeat split; [apply linear_edges_last; exact Hn1|apply linear_edges_len|discriminate].
+      - repeat split; [apply snapped_edges_first; exact Hn1|apply snapped_edges_last|apply snapped_edges_len|discriminate].
+      - repeat split; [apply snapped_edges_first; exact Hn1|apply snapped_edges_last|apply snapped_edges_len|discriminate]. }
+    destruct Hfl as (Hf & Hl & Hlen & Hnc).
+    assert (Hc : method_eqb mth MCustom = false) by (destruct mth; try reflexivity; congruence).
+    rewrite Hc. cbn [orb is_some bind].
+    unfold create_binning, zmin_of, zmax_of, nbins_of. cbn [b_edges default].
+    rewrite Hf, Hl, Hlen. replace (S n - 1)%nat with n by lia. rewrite Hg.
     unfold mk_binning. rewrite Hv. destruct cl; try congruence; reflexivity.
+  - (* custom *)
+    subst mth. cbn [method_eqb orb is_some bind]. unfold mk_binning. rewrite Hv.
+    destruct cl; try congruence; reflexivity.
 Qed.
